@@ -218,6 +218,14 @@ def check(case, ev):
         if int(getattr(assumed, "sign", 1)) and not oracle.is_leaf(assumed):
             env2 = dict(env)
             env2.update(overrides)   # assumed sub-propositions are now bare constant variables
+            for x in oracle.walk(assumed):
+                # a sub-proposition that assume() replaced by a bare variable stands for the constant it carries
+                if oracle.is_leaf(x) and x.id not in env2:
+                    if x.id in comps and int(x.bounds.lower) == int(x.bounds.upper):
+                        env2[x.id] = int(x.bounds.lower)
+                    else:
+                        raise Violation(f"after assume({_show(D)}) the model contains the free variable {x.id!r} {oracle.bounds_tuple(x.bounds)} which is "
+                                        f"{'a sub-proposition of' if x.id in comps else 'unknown to'} the original model")
             if oracle.obj_value(assumed, env2) != oracle.obj_value(m, env, overrides, memo):
                 raise Violation(f"assumed model's arithmetic value differs from the original's under {env}; D={_show(D)}")
     ev.count("completions", len(pts))
